@@ -124,4 +124,13 @@ theorem required_ghost_not_demanded :
     BoundM.demands (BoundM.mergeProps [(0, false)] [] ([1] ++ [])) (fun n => n = 0) ∧
       ¬ (∀ n ∈ [1], (fun n => n = 0) n) := BoundM.ghost_required_not_demanded
 
+/-- **`required` of an allOf with any number of members** (after fix 944cde35; hypotheses: parser-consistent flags and
+    every required name declared by some member — K20 otherwise): the merged object demands exactly the names that
+    any member requires, whatever the order of the members -/
+theorem allOf_required_n_iff_partial (first : BoundM.Member) (rest : List BoundM.Member) (K : Nat → Prop)
+    (hf : ∀ m ∈ first :: rest, BoundM.FlagIff m)
+    (hd : ∀ m ∈ first :: rest, ∀ n ∈ m.2, ∃ m' ∈ first :: rest, n ∈ BoundM.names m'.1) :
+    BoundM.demands (BoundM.mergeN first rest).1 K ↔ ∀ m ∈ first :: rest, ∀ n ∈ m.2, K n :=
+  BoundM.mergeN_required_iff first rest K hf hd
+
 end C03
